@@ -9,7 +9,7 @@ import callers
 def run(chk):
     Ds = callers.monitor_attempt_loop(chk, chk.tier)
     # the no-retry-after-forgery obligation belongs to C02; it is evaluated there as well
-    chk.obligations = [o for o in chk.obligations if o.name != 'no-retry-after-forgery']
+    chk.obligations = [o for o in chk.obligations if o.name not in ('no-retry-after-forgery',)]
     randomize(chk)
     chk.bounds.update({'attempt_loop_unrolling': 5, 'apps': 1, 'per-attempt outcomes': 'Ok | 6 error classes x (caller error?, poll interval present?)'})
     chk.assumptions += [
